@@ -391,9 +391,12 @@ ssize_t _GD_SampIndRead(struct gd_raw_file_ *restrict file, void *restrict ptr,
 
   /* not enough data in the current run */
   while (f->s - f->p < (int64_t)(nelem - count)) {
-    /* copy what we've got */
-    cur = _GD_Duplicate(cur, f->d + 1, GD_SIZE(data_type), f->s - f->p + 1);
-    count += f->s - f->p + 1;
+    /* copy what we've got -- a record ending before the current position
+     * (possible only in a malformed file) holds nothing */
+    if (f->s >= f->p) {
+      cur = _GD_Duplicate(cur, f->d + 1, GD_SIZE(data_type), f->s - f->p + 1);
+      count += f->s - f->p + 1;
+    }
 
     DPRINTF;
 
@@ -413,8 +416,10 @@ ssize_t _GD_SampIndRead(struct gd_raw_file_ *restrict file, void *restrict ptr,
     f->p += nelem - count;
     count = nelem;
   } else {
-    _GD_Duplicate(cur, f->d + 1, GD_SIZE(data_type), f->s - f->p + 1);
-    count += f->s - f->p + 1;
+    if (f->s >= f->p) {
+      _GD_Duplicate(cur, f->d + 1, GD_SIZE(data_type), f->s - f->p + 1);
+      count += f->s - f->p + 1;
+    }
     f->p = f->s + 1;
   }
 
